@@ -1362,7 +1362,7 @@ class C12(Property):
                     if impl_i != want_i:
                         fails.append(F("A", "sparse ARFF index %r: implementation %r, model parseIntPy %r" % (tok, impl_i, k), "A:numlit-int"))
                 if "_" not in tok and not any("\x1c" <= ch <= "\x1f" for ch in tok) and (ans["int"] != ans["int0"] or ans["float"] != ans["float0"]):
-                    fails.append(F("C", "model: parseIntPy/isFloatLitPy differ from parseInt/isFloatLit on the underscore-free %r" % tok, "C:numlit-conservative"))
+                    fails.append(F("C", "model: parseIntPy/isFloatLitPy differ from parseInt/isFloatLit on the underscore-free %r" % tok, "C:numerals_conservative"))
             return {"fails": fails, "nontrivial": True, "tags": tags, "impl": {"float": impl_f, "int": impl_i}, "model": model}
         vals, pad = case["values"], case["pad"]
         n = len(vals)
@@ -1497,6 +1497,117 @@ class C12(Property):
             c["sp"] = {"sseed": c["sp"]["sseed"], "style": c["sp"].get("style", "weka")}
         return c
 
+    # ------------------------------------------------------------------ translator step (phase 4, continued)
+    GEN_DEFAULTS = {"numericTypes": ["numeric", "integer", "real"], "stringTypes": ["string", "date", "relational"],
+                    "transDeleted": " \t\n\r\x0b\x0c", "sparseMissingIn": " ?,", "sparseMissingEnd": " ?}",
+                    "sparseStripChars": "} {", "csvRstrip": "\r\n", "svmItemSep": " ", "svmNoLabelMark": ":",
+                    "svmLabelSep": ",", "svmKvSep": ":", "manikSkip": 1}
+
+    @staticmethod
+    def extract_reader_tables(src):
+        """the literal tables / separators of coba/pipes/readers.py, by `ast` (None for what is not found as a literal)"""
+        import ast
+        tree = ast.parse(src)
+        classes = {n.name: n for n in tree.body if isinstance(n, ast.ClassDef)}
+
+        def func(cls, name):
+            c = classes.get(cls)
+            for n in (c.body if c else []):
+                if isinstance(n, ast.FunctionDef) and n.name == name:
+                    return n
+            return None
+
+        def strs(node):
+            return [n.value for n in ast.walk(node) if isinstance(n, ast.Constant) and isinstance(n.value, str)] if node else []
+
+        def assign(node, name):
+            for n in (ast.walk(node) if node else []):
+                if isinstance(n, ast.Assign) and len(n.targets) == 1 and isinstance(n.targets[0], ast.Name) and n.targets[0].id == name:
+                    return n.value
+            return None
+
+        def call_args(node, attr):
+            """first positional string argument of every `<x>.<attr>(...)` call, in source order"""
+            out = []
+            for n in (ast.walk(node) if node else []):
+                if isinstance(n, ast.Call) and isinstance(n.func, ast.Attribute) and n.func.attr == attr and n.args \
+                        and isinstance(n.args[0], ast.Constant) and isinstance(n.args[0].value, str):
+                    out.append((n.lineno, n.col_offset, n.args[0].value))
+            return [v for _, _, v in sorted(out)]
+        t = {}
+        enc = func("ArffAttrReader", "_encoder")
+        for key, var in (("numericTypes", "numeric_types"), ("stringTypes", "string_types")):
+            v = assign(enc, var)
+            if isinstance(v, (ast.Tuple, ast.List)) and all(isinstance(e, ast.Constant) and isinstance(e.value, str) for e in v.elts):
+                t[key] = [e.value for e in v.elts]
+        tr = assign(classes.get("ArffDataReader"), "_trans")
+        if isinstance(tr, ast.Call) and len(tr.args) == 3 and all(isinstance(a, ast.Constant) for a in tr.args) and tr.args[0].value == "" and tr.args[1].value == "":
+            t["transDeleted"] = tr.args[2].value
+        sp = func("ArffDataReader", "_sparse")
+        for n in (ast.walk(sp) if sp else []):
+            if isinstance(n, ast.Compare) and len(n.ops) == 1 and isinstance(n.left, ast.Constant) and isinstance(n.ops[0], ast.In) and isinstance(n.left.value, str):
+                t["sparseMissingIn"] = n.left.value
+            if isinstance(n, ast.Compare) and len(n.ops) == 1 and isinstance(n.ops[0], ast.Eq) and isinstance(n.left, ast.Subscript) \
+                    and isinstance(n.comparators[0], ast.Constant) and isinstance(n.comparators[0].value, str) and len(n.comparators[0].value) > 1:
+                sl = n.left.slice
+                if isinstance(sl, ast.Slice) and sl.upper is None and isinstance(sl.lower, ast.UnaryOp) and isinstance(sl.lower.operand, ast.Constant) \
+                        and sl.lower.operand.value == len(n.comparators[0].value):
+                    t["sparseMissingEnd"] = n.comparators[0].value
+        a = call_args(func("ArffLineReader", "_sparse"), "strip")
+        if len(a) == 1:
+            t["sparseStripChars"] = a[0]
+        a = call_args(func("CsvReader", "filter"), "rstrip")
+        if len(a) == 1:
+            t["csvRstrip"] = a[0]
+        svm = func("LibsvmReader", "filter")
+        a = call_args(svm, "split")
+        if len(a) == 3:
+            t["svmItemSep"], t["svmLabelSep"], t["svmKvSep"] = a
+        for n in (ast.walk(svm) if svm else []):
+            if isinstance(n, ast.Compare) and len(n.ops) == 1 and isinstance(n.ops[0], ast.In) and isinstance(n.left, ast.Constant) and isinstance(n.left.value, str):
+                t["svmNoLabelMark"] = n.left.value
+        mk = func("ManikReader", "filter")
+        for n in (ast.walk(mk) if mk else []):
+            if isinstance(n, ast.Call) and isinstance(n.func, ast.Name) and n.func.id == "islice" and len(n.args) == 3 \
+                    and isinstance(n.args[1], ast.Constant) and isinstance(n.args[1].value, int) and isinstance(n.args[2], ast.Constant) and n.args[2].value is None:
+                t["manikSkip"] = n.args[1].value
+        return t
+
+    def pre_build(self):
+        """regenerate lean/CobaVerif/Generated/C12Readers.lean from the CURRENT coba/pipes/readers.py; Props/C12.lean proves that
+        these tables are the ones the model uses (`readers_tables_match`, `compact_uses_trans`, …)"""
+        from core import lean
+        repo = os.environ.get("COBA_REPO", "/repo")
+        try:
+            with open(os.path.join(repo, "coba", "pipes", "readers.py"), encoding="utf-8") as f:
+                found = self.extract_reader_tables(f.read())
+        except (OSError, SyntaxError):
+            found = {}
+        missing = [k for k in self.GEN_DEFAULTS if k not in found]
+        vals = dict(self.GEN_DEFAULTS, **found)
+
+        def txt(x):
+            return "[" + ", ".join(str(ord(ch)) for ch in x) + "]"
+        body = ("-- GENERATED by harness/props/c12.py (pre_build, Python `ast`) from coba/pipes/readers.py on every run; do not edit.\n"
+                + ("-- NOT FOUND as literals (code reshaped), model defaults used: %s\n" % ", ".join(missing) if missing else "")
+                + "namespace Coba.Generated.C12Readers\n"
+                + "def numericTypes : List (List Nat) := [%s]\n" % ", ".join(txt(x) for x in vals["numericTypes"])
+                + "def stringTypes : List (List Nat) := [%s]\n" % ", ".join(txt(x) for x in vals["stringTypes"])
+                + "".join("def %s : List Nat := %s\n" % (k, txt(vals[k])) for k in
+                          ("transDeleted", "sparseMissingIn", "sparseMissingEnd", "sparseStripChars", "csvRstrip", "svmItemSep", "svmNoLabelMark", "svmLabelSep", "svmKvSep"))
+                + "def manikSkip : Nat := %d\n" % vals["manikSkip"]
+                + "def extracted : Bool := %s\n" % ("true" if not missing else "false")
+                + "end Coba.Generated.C12Readers\n")
+        path = os.path.join(lean.LEAN_DIR, "CobaVerif", "Generated", "C12Readers.lean")
+        old = open(path, encoding="utf-8").read() if os.path.exists(path) else None
+        if old != body:
+            os.makedirs(os.path.dirname(path), exist_ok=True)
+            with open(path, "w", encoding="utf-8") as f:
+                f.write(body)
+        if missing:
+            return ["reader tables NOT extracted as literals from coba/pipes/readers.py: %s (defaults written; obligations about them are vacuous)" % ", ".join(missing)]
+        return ["reader tables extracted from coba/pipes/readers.py: " + ", ".join("%s=%r" % (k, vals[k]) for k in self.GEN_DEFAULTS)]
+
     def corpus(self):
         cs = []
         for text in ["aé\r\nb c\x0bd\n", "é", "a\r\nb", "\r\n", "a\r", "\n\n", "", "x", "\U0001F600\r\n中",
@@ -1582,7 +1693,7 @@ class C12(Property):
         cs.append({"kind": "label", "fmt": "csv", "names": ["a", "b", "y"], "rows": [["spam", "1.5", "free"], ["ham", "0.25", "lunch"], ["spam", "3", "win"]], "label": 0, "header": False})
         cs.append({"kind": "label", "fmt": "csv", "names": ["a", "b", "y"], "rows": [["spam", "1.5", "free"], ["ham", "0.25", "lunch"]], "label": -1, "header": False})
         cs.append({"kind": "label", "fmt": "csv", "names": ["a", "b", "y"], "rows": [["spam", "1.5", "free"], ["ham", "0.25", "lunch"]], "label": "a", "header": True})
-        for tok in ["1_000", "1__0", "_1", "1_", "+1", " 12 ", "inf", "-Infinity", "NaN", "1_0.5e1_0", "1._5", "1e_5", ".", "+.5", "\u20037", "0x10"]:
+        for tok in ["1_000", "1__0", "_1", "1_", "+1", " 12 ", "inf", "-Infinity", "NaN", "1_0.5e1_0", "1._5", "1e_5", ".", "+.5", "\u20037", "0x10", "\x0bNaN\x1c", "1\x1c", "\x1f2.5"]:
             cs.append({"kind": "lit", "sub": "num", "tok": tok})
         for vals, pad in [(["a", "b"], 0), (["a b", "?", "{x}"], 1), (["\tx", "y"], 0), (["x\\", "y"], 0), (["", "y"], 2), (["%", "1.5", "é"], 2)]:
             cs.append({"kind": "lit", "sub": "plain", "values": vals, "pad": pad})
